@@ -516,7 +516,7 @@ class PolygonTensor(PolytopeTensor):
             try:
                 result = self._plane.meet(other._line)
             except LinearDependenceError as e:
-                if isinstance(other, SegmentTensor):
+                if isinstance(other, SegmentCollection):
                     other = cast(SegmentTensor, other[~e.dependent_values])
                 result = cast(PlaneTensor, self._plane[~e.dependent_values]).meet(other._line)
                 return list(
